@@ -257,13 +257,17 @@ func runE2(engine string, pk pathKind, o *stack.Olla, a, b *stack.Backend) {
 				// ("Connection: close, X-Verif-Nominated") and sends its body chunked with trailer fields
 				shape := seq % 3
 				req := &stack.Req{Method: "POST", Target: pk.target, Timeout: 8 * time.Second}
+				// every client sends X-Verif-Nominated; only the third shape declares it hop-by-hop. Whether a header travels
+				// is decided per request: the same name is an ordinary header for the clients before and after
+				nomVal := fmt.Sprintf("value-of-request-%d", seq)
+				hs = append(hs, [2]string{"X-Verif-Nominated", nomVal})
 				switch shape {
 				case 0:
 					hs = append(hs, [2]string{"Connection", "close"})
 				case 1:
 					req.KeepAlive = true
 				case 2:
-					hs = append(hs, [2]string{"Connection", "close, X-Verif-Nominated"}, [2]string{"X-Verif-Nominated", "for-the-next-hop-only"})
+					hs = append(hs, [2]string{"Connection", "close, X-Verif-Nominated"})
 					req.Chunked, req.ChunkSize = true, 32
 					req.Trailers = [][2]string{{"X-Verif-T1", "t1"}, {"Authorization", "Bearer secret-in-trailer"}, {"Cookie", "secret-trailer-cookie"}}
 				}
@@ -287,6 +291,11 @@ func runE2(engine string, pk pathKind, o *stack.Olla, a, b *stack.Backend) {
 					if c0, ok := connSeen[0]; ok && c0 != connSeen[1] {
 						res.Violate("client-connection-management-forwarded", map[string]any{"part": "E2", "engine": engine, "what": "Connection"},
 							cell+fmt.Sprintf("\nthe backend is told Connection: %q when the client said close and %q when the client kept its connection alive", c0, connSeen[1]), rp)
+					}
+				}
+				if shape != 2 {
+					if v := q.HeaderValues("X-Verif-Nominated"); len(v) != 1 || v[0] != nomVal {
+						res.Violate("ordinary-header-withheld-or-altered", map[string]any{"part": "E2", "engine": engine, "header": "X-Verif-Nominated"}, cell+fmt.Sprintf("\nthe client sent X-Verif-Nominated: %s as an ordinary header (an earlier client had listed that name in its Connection header); the backend received %q", nomVal, v), rp)
 					}
 				}
 				if shape == 2 {
